@@ -136,7 +136,11 @@ def json_model(x, default=None, hook=None, tolerant_log=None):
         return out
     if default is not None:
         try:
-            y = default(x)
+            if isinstance(x, (torch.Tensor, Parameter)):
+                with untraced():  # concrete payload: run the real encoder without opcode tracing
+                    y = default(x)
+            else:
+                y = default(x)
         except TypeError:
             raise NotSerialisable(type(x).__name__)
         return json_model(y, default, hook, tolerant_log)
@@ -157,6 +161,19 @@ def checkpoint_real(x):
 
 
 # ------------------------------------------------------------------------------------------- comparison
+def untraced():
+    """Inside CrossHair: switch the opcode tracer off (torch's own Python code builds sets of tensors, which
+    CrossHair's symbolic-aware `set` cannot hash/compare).  Only used around code that sees concrete values."""
+    try:
+        from crosshair.tracers import NoTracing, is_tracing
+
+        if is_tracing():
+            return NoTracing()
+    except Exception:
+        pass
+    return contextlib.nullcontext()
+
+
 def _kind(x):
     if x is None:
         return 'none'
@@ -171,6 +188,18 @@ def _kind(x):
     return None
 
 
+def _tensor_diff(a, b, path):
+    if a.dtype != b.dtype:
+        return path + ':dtype'
+    if a.shape != b.shape:
+        return path + ':shape'
+    if isinstance(a, torch.nn.Parameter) != isinstance(b, torch.nn.Parameter):
+        return path + ':nn-flag'
+    if a.numel() and not bool(((a == b) | ((a != a) & (b != b))).all()):
+        return path + ':values'
+    return ''
+
+
 def diff(a, b, path=''):
     """'' when a and b are the same state; otherwise 'path:reason' of the first difference.  tuple == list
     (JSON data model); NaN == NaN; dict keys are compared with their types ('0' != 0)."""
@@ -179,15 +208,8 @@ def diff(a, b, path=''):
     if isinstance(a, torch.Tensor) or isinstance(b, torch.Tensor):
         if not (isinstance(a, torch.Tensor) and isinstance(b, torch.Tensor)):
             return path + ':tensor-vs-' + type(b if isinstance(a, torch.Tensor) else a).__name__
-        if a.dtype != b.dtype:
-            return path + ':dtype'
-        if a.shape != b.shape:
-            return path + ':shape'
-        if isinstance(a, torch.nn.Parameter) != isinstance(b, torch.nn.Parameter):
-            return path + ':nn-flag'
-        if a.numel() and not bool(((a == b) | ((a != a) & (b != b))).all()):
-            return path + ':values'
-        return ''
+        with untraced():  # tensors are concrete
+            return _tensor_diff(a, b, path)
     if isinstance(a, Parameter) and isinstance(b, Parameter):
         return diff(a.tensor, b.tensor, path + '.tensor')
     ka, kb = _kind(a), _kind(b)
@@ -215,12 +237,12 @@ def diff(a, b, path=''):
             if k not in b:
                 if any(str(k) == str(k2) for k2 in bk):
                     return path + ':int-keys-become-str'
-                return f'{path}[{k!r}]:key-lost'
+                return f'{path}[{k}]:key-lost'
         for k in bk:
             if k not in a:
-                return f'{path}[{k!r}]:key-added'
+                return f'{path}[{k}]:key-added'
         for k in ak:
-            d = diff(a[k], b[k], f'{path}[{k!r}]')
+            d = diff(a[k], b[k], f'{path}[{k}]')
             if d:
                 return d
         return ''
@@ -307,19 +329,6 @@ def mk_mcmc(with_hmc=False, **hmc_kw):
 
 ALGOS = ('SGD', 'Adam', 'Adagrad', 'RMSprop', 'AdamW')  # SGD with momentum, AdamW with amsgrad
 SCHEDS = ('none', 'StepLR', 'MultiStepLR', 'ExponentialLR', 'LambdaLR', 'CosineAnnealingLR')
-
-
-def untraced():
-    """Inside CrossHair: switch the opcode tracer off (torch's own Python code builds sets of tensors, which
-    CrossHair's symbolic-aware `set` cannot hash/compare).  Only used around code that sees concrete values."""
-    try:
-        from crosshair.tracers import NoTracing, is_tracing
-
-        if is_tracing():
-            return NoTracing()
-    except Exception:
-        pass
-    return contextlib.nullcontext()
 
 
 def mk_optimizer(algo=0, sched=0, warm=0, conv=False):
